@@ -123,7 +123,6 @@ fn jar_case(rng: &mut Rng, rep: &mut Report) {
     if !injective(&exp.names, &universe) || !injective(&names_all, &universe) { rep.count("domain.skipped_rename_not_injective"); return; }
     let final_newline = rng.bool();
     let text = table_text(&rows, final_newline);
-    if std::env::var("C14_TRACE").is_ok() { eprintln!("TRACE jar {} {:016x} {}", rep.cur.1, rng::fnv_str(&text), present.join(",")); }
     let case = rep.cur.clone();
     let mut entries: Vec<(String, InEntry)> = vec![];
     for (name, c) in &bodies {
@@ -227,7 +226,6 @@ fn maps_case(rng: &mut Rng, rep: &mut Report, small: bool) {
     let names_all = new_names(&all_rows);
     if !injective(&names_all, &universe) { rep.count("domain.skipped_rename_not_injective"); return; }
     let text = table_text(&rows, rng.bool());
-    if std::env::var("C14_TRACE").is_ok() { eprintln!("TRACE maps {} {:016x}", rep.cur.1, rng::fnv_str(&text)); }
     let want_methods: Vec<(String, (String, String))> = rows.iter().filter_map(|r| r.method.clone().map(|m| (r.encl.clone(), m))).collect();
     let (m, tshapes) = gen_mappings(rng, &universe, &[], &want_methods, small);
     rep.eval();
@@ -396,11 +394,14 @@ fn main() {
     let replay = load_replay(&mut ctx);
     if let Err(e) = self_checks() { println!("HARNESS-ERROR C14 self-check failed: {e}"); std::process::exit(3); }
     let mut rep = Report::new();
-    // the cheap workload first: the wall-clock budget only ends generation, and the obligations of both are met within the first few hundred cases
-    let n_maps = ctx.tier.pick(20_000, 300_000);
+    // Three workloads. The obligations are met by the first two (a few hundred cases each); the wall-clock budget only
+    // ends generation, so on a starved machine it is the bulk of the cheap mapping cases (`maps2`) that is cut short.
+    let n_maps = ctx.tier.pick(5_000, 50_000);
     let n_jar = ctx.tier.pick(5_000, 60_000);
+    let n_maps2 = ctx.tier.pick(15_000, 250_000);
     run_cases(&ctx, &replay, &mut rep, "maps", n_maps, |rng, rep, _| maps_case(rng, rep, false));
     run_cases(&ctx, &replay, &mut rep, "jar", n_jar, |rng, rep, _| jar_case(rng, rep));
+    run_cases(&ctx, &replay, &mut rep, "maps2", n_maps2, |rng, rep, _| maps_case(rng, rep, false));
 
     let mut meta = Meta::new("exploration",
         "jar case = 3-8 generated classes that reference each other (generated bodies over a shared class pool + anchor methods) x a nests table of 1-6 rows plus rows for absent classes, fed as text, x a two-namespace mapping set over the same classes; \
